@@ -524,6 +524,24 @@ func c01EndPaths(c *core.Ctx, rule string, withR7 bool) {
 				}
 			}
 		})
+		// the takeover renames the node object in place: its set of sessions is part of that object, and overwriting the
+		// object (or the set) orphans every session of the node — a later Deletion finds no entry and removes nothing
+		sessF := p.Field(pkgPfcp, "RemoteNode", "sess")
+		keeps := true
+		var at token.Pos = fn.Pos()
+		core.Instrs(fn, func(in ssa.Instruction) {
+			st, ok := in.(*ssa.Store)
+			if !ok {
+				return
+			}
+			if core.Unwrap(st.Addr) == ssa.Value(core.Param(fn, 0)) {
+				keeps, at = false, st.Pos()
+			}
+			if fa, ok := st.Addr.(*ssa.FieldAddr); ok && sessF != nil && core.FieldOfAddr(fa) == sessF {
+				keeps, at = false, st.Pos()
+			}
+		})
+		c.Check(rule, "takeover-keeps-sessions", at, keeps, "UpdateNodeID renames the node in place: it neither overwrites the node object nor replaces its set of sessions")
 		for _, d := range dels {
 			for _, st := range stores {
 				differ := false // ... unless the delete is guarded by old != new
@@ -910,7 +928,20 @@ func C05(c *core.Ctx) {
 			}
 			c.Check("R7", "periodic-removal-confined:"+key, token.NoPos, bad == "" && n > 0, "periodic server, removal of one (SEID, URR): "+key+" (C15 R2) "+bad)
 		}
+		okOnce := true
+		for _, f := range sub.Findings {
+			if strings.Contains(f.Key, "/R4/registered-once") {
+				okOnce = false
+			}
+		}
+		c.Check("R7", "periodic-registration-single", token.NoPos, okOnce, "a URR is registered for periodic querying once, so that ending its session removes every registration: a left-over (SEID, URR) entry is inherited by the next session that is given the SEID (C15 R4 / C03 R8)")
 	}
+	// R8: a request acts once: a retransmission that arrives after the addressed session was deleted and its SEID given
+	// to another node's session must still be recognised as a retransmission — the response is retained for the whole
+	// time in which the peer retransmits (C06 R1/R4)
+	shareFrom(c, "C06", "R8", func(o *core.Obligation) bool {
+		return (o.Rule == "R4" && strings.Contains(o.Key, "/R4/retention-")) || (o.Rule == "R1" && strings.Contains(o.Key, "/R1/dispatch-iff-new"))
+	}, 2, "retransmission rules")
 }
 
 // seidOfRequest: v is <param>.SEID() / a field named SEID of a parameter / a parameter named like a SEID.
